@@ -16,7 +16,9 @@ from vlib.tlaparse import to_json, parse_behaviour_text
 WEAK_CASES = ["SkipTrustLevel", "AdjacentIgnoresNextVals", "NoExpiry", "FutureHeaderOK", "TrustLevelOnNewSet"]
 WEAK_CLIENT = ["SkipTrustLevel", "AdjacentIgnoresNextVals", "NoExpiry", "FutureHeaderOK", "TrustLevelOnNewSet",
                "MismatchAlsoCountsAsMatch", "NoWitnessNeeded", "BackwardsUnbound", "ReplacementHashUnchecked",
-               "PromotedWitnessStays", "PartialTraceOnBenignError", "DivergentHeaderExaminedOncePerRun"]
+               "PromotedWitnessStays", "PartialTraceOnBenignError", "DivergentHeaderExaminedOncePerRun",
+               "LaggingWitnessEqualTimeBenign"]
+WEAK_ALL_COUNTEREXAMPLES = {"DivergentHeaderExaminedOncePerRun", "LaggingWitnessEqualTimeBenign"}
 PROPS = {"TrustRootOnly", "StoreSound", "WitnessConfirmed", "IndependentWitness", "NoConfirmationFromSilence", "AttackReported",
          "OrderIndependent", "AttackerNeverOutvoted",
          "AttackStoresNothing", "StoreMonotone"}
@@ -92,7 +94,17 @@ def _inputs(ctx, quick):
             r = ctx.tlc("C09_cases", cfg, timeout=600, workers=2, label="weak_cases_" + w)
             names = {v["name"] for v in r.violations} & CASE_PROPS
         else:
-            r = ctx.tlc("C09_client", "C09_weak_%s.cfg" % w, timeout=900, workers=2, label="weak_client_" + w)
+            # the narrow families are explored completely (-continue): every violating scenario of
+            # the weakened specification becomes an attack schedule, not only the first one found
+            r = ctx.tlc("C09_client", "C09_weak_%s.cfg" % w, timeout=900, workers=2, label="weak_client_" + w,
+                        cont=w in WEAK_ALL_COUNTEREXAMPLES)
+            if w in WEAK_ALL_COUNTEREXAMPLES:
+                # with -continue a progress line can fall into a counterexample's text; such a
+                # trace is dropped, and if none is left the first counterexample is fetched again
+                r.errors = [e for e in r.errors if not e.startswith("unparsable counterexample")]
+                if not any(v["trace"] for v in r.violations) and not r.errors and not r.timed_out:
+                    r = ctx.tlc("C09_client", "C09_weak_%s.cfg" % w, timeout=900, workers=2,
+                                label="weak_client_" + w + "_first")
             names = {v["name"] for v in r.violations} & PROPS
         if r.timed_out or r.errors:
             raise Undecided("TLC run weak_%s_%s failed: %s" % (kind, w, (r.errors or ["timeout"])[:2]))
@@ -106,9 +118,19 @@ def _inputs(ctx, quick):
         for kind, w, names, r in ex.map(weak, jobs):
             out["nonvacuity"]["Weak_%s (%s) refuted by TLC" % (w, kind)] = names
             if kind == "client":
+                seen = set()
                 for v in r.violations:
-                    if v["trace"]:
-                        attacks.append((w, v["trace"]))
+                    if not v["trace"]:
+                        continue
+                    key = json.dumps(to_json(v["trace"][0][1].get("scen")), sort_keys=True)
+                    if key in seen or len(seen) >= 6:
+                        continue
+                    seen.add(key)
+                    attacks.append((w, v["trace"]))
+    # the forward-lunatic family (forged time one tick before / equal to / one tick after the head a
+    # lagging honest witness still has; the witness advances during the wait or not), all properties
+    out["r_client"].append(ctx.tlc("C09_client", "C09_fwdlunatic.cfg", must_pass=True, timeout=900, workers=4,
+                                   label="client_fwdlunatic"))
     # the unweakened base of the weak family must pass (quick: covered by the run above)
     if not quick:
         ctx.tlc("C09_client", "C09_weak_none.cfg", must_pass=True, timeout=900, workers=4, label="weak_base")
